@@ -240,6 +240,13 @@ def plan(ctx):
             if ctx.thorough:
                 for (r, k) in ((0, 0), (2, 2), (0, 2)):
                     tasks.append((mode, "task", (r, k), exc, "ok"))
+        if ctx.thorough and mode in ("default", "mpK", "virtual"):
+            # every built-in class at every fault point
+            for exc in ("AttributeError", "TypeError", "KeyError", "IndexError", "RuntimeError", "AssertionError",
+                        "ZeroDivisionError", "OSError"):
+                for r in range(R):
+                    for k in range(K):
+                        tasks.append((mode, "task", (r, k), exc, "ok"))
     for mode in ("default", "mpK") + (("mp2",) if ctx.thorough else ()):
         for r in range(R):
             for ph in ("repop", "stats", "opt", "relabel"):
